@@ -57,6 +57,7 @@ SCEN = {
     'UpgPair': lambda inv=(): sc('MC_UpgPair', 6, 7, inv),
     'UpgS': lambda inv=(): sc('MC_UpgS', 4, 5, inv),
     'UpgC': lambda inv=(): sc('MC_UpgC', 4, 5, inv),
+    'ConnWinS': lambda inv=(): sc('MC_ConnWinS', 4, 6, inv),
     'QuietS': lambda inv=(): sc('MC_QuietS', 4, 6, inv),
     'QuietC': lambda inv=(): sc('MC_QuietC', 4, 6, inv),
 }
@@ -77,7 +78,7 @@ PROPS = {
             'lens': [(['o'], ANY), (['q.mof', 'z.hp'], ANY)]},
     'C03': {'scenarios': scen('FlowS SetC PushS', ['P_C03_SendWithinWindows', 'P_C03_WindowsBounded']),
             'lens': [(['q.lw', 'z.ow', 'z.streams.ow'], ANY), (['r', 'o'], S('call:data')), (['r', 'e'], S('frame:WU'))]},
-    'C04': {'scenarios': scen('FlowS CloseS PushC', ['P_C04_InboundDataExactlyAtWindow', 'P_C04_RemoteWindowIsAdvertised']),
+    'C04': {'scenarios': scen('FlowS CloseS PushC ConnWinS', ['P_C04_InboundDataExactlyAtWindow', 'P_C04_RemoteWindowIsAdvertised']),
             'lens': [(['q.rw', 'z.iw', 'z.streams.iw'], ANY), (['r', 'o', 'e'], S('frame:DATA', 'call:inc', 'call:ack'))]},
     'C05': {'scenarios': scen('FlowS StallS', ['P_C05_AutoUpdateWithinBounds', 'P_C05_NoStall']),
             'lens': [(['r', 'o', 'q.rw', 'z.iw', 'z.streams.iw'], S('call:ack')), (['q.rw', 'z.iw', 'z.streams.iw'], S('frame:DATA', 'frame:SET'))]},
